@@ -94,7 +94,7 @@ Definition lambda_def (t : node) : option (string * nat) :=
 
 (* the trees of one session that lie in the fragment: built-in names still hold the built-ins, and every
    function called is a built-in or a user function defined earlier by a qualifying definition and not
-   rebound since (funs), called with as many arguments as it has parameters *)
+   rebound since (funs) — with any number of arguments: too few or too many is the arity error the theorem covers *)
 Fixpoint count_fragment (trees : list node) (intact : bool) (funs : list (string * nat)) : nat :=
   match trees with
   | [] => 0
@@ -102,7 +102,7 @@ Fixpoint count_fragment (trees : list node) (intact : bool) (funs : list (string
       let ok := intact && in_fragment t &&
                 match strewrite t with
                 | Some t' => forallb (fun c => builtin_call_ok c ||
-                                               existsb (fun f => String.eqb (fst c) (fst f) && Nat.eqb (snd c) (snd f)) funs)
+                                               existsb (fun f => String.eqb (fst c) (fst f)) funs)
                                      (callees t')
                 | None => false
                 end in
